@@ -224,6 +224,14 @@ func (w *printer) node(n *Node) {
 			w.ws("[]")
 		}
 	case "Expr.call":
+		if args := a[2].([]*Node); a[0].(string) == "" && a[1].(string) == "timezone" && len(args) == 2 {
+			w.ws("(")
+			w.node(args[1])
+			w.ws(" AT TIME ZONE ")
+			w.node(args[0])
+			w.ws(")")
+			break
+		}
 		w.ws(qname(a[0].(string), a[1].(string)))
 		w.ws("(")
 		w.list(a[2].([]*Node), ", ")
